@@ -3,6 +3,7 @@ package main
 import (
 	"fmt"
 	"math"
+	"strings"
 
 	"go.flow.arcalot.io/pluginsdk/schema"
 	"verif/harness/sx"
@@ -48,7 +49,10 @@ type c17g struct {
 	nInl     int
 	frag     bool // only the schema kinds of C02 (no objects, one-ofs, references)
 	dispPct  int  // percentage of properties that carry display data (a name, sometimes a description)
+	disabledPct int // percentage of properties that are disabled
 }
+
+func c17PropDisabled(p *sx.Node) bool { return p.List[1].List[10].Atom == "1" }
 
 func (g *c17g) optBounds(lo, hi int64) (mn, mx *int64) {
 	switch g.r.Intn(5) {
@@ -110,7 +114,7 @@ func (g *c17g) leaf() *sx.Node {
 }
 
 func (g *c17g) keyType() *sx.Node {
-	switch g.r.Intn(5) {
+	switch g.r.Intn(7) {
 	case 0:
 		return dInt(ip(0), ip(100), nil)
 	case 1:
@@ -119,8 +123,47 @@ func (g *c17g) keyType() *sx.Node {
 		return dEnumInt([]int64{1, 2, 3}, nil)
 	case 3:
 		return dString(nil, nil, c17Pats[0].re)
+	case 4: // integer keys WITH units: a key may be written as a unit text ("1kB"), which is not the text of its value
+		u := unitsFromSDK(pick(g.r, []*schema.UnitsDefinition{schema.UnitBytes, schema.UnitDurationSeconds}))
+		return dInt(ip(0), ip(100000), &u)
+	case 5:
+		if g.r.Bool() {
+			u := unitsFromSDK(schema.UnitBytes)
+			return dEnumInt([]int64{0, 1, 1024, 2048, 1048576}, &u)
+		}
+		u := unitsFromSDK(schema.UnitDurationSeconds)
+		return dEnumInt([]int64{0, 1, 60, 90, 3600}, &u)
 	}
 	return dString(ip(1), ip(8), nil)
+}
+
+// c17IntKeyRaw: a raw form of the integer key z: the integer itself, or a TEXT the key schema reads as z and that differs
+// from z's own decimal text - "01", "+1" (strconv.ParseInt), and with units " 1", "1B", "1kB", "1 kilobyte" ... - or the
+// plain decimal text.  The segment of an error below that key names the key AS WRITTEN.
+func c17IntKeyRaw(r *Rng, z int64, units *sx.Node) *sx.Node {
+	if r.Chance(40) {
+		if r.Chance(30) && z >= 0 && z < 128 {
+			return vI(pick(r, []string{"i0", "u8", "i32", "u64"}), z)
+		}
+		return vI("i64", z)
+	}
+	texts := []string{fmt.Sprintf("%d", z)}
+	if z >= 0 {
+		texts = append(texts, fmt.Sprintf("0%d", z), fmt.Sprintf("+%d", z), fmt.Sprintf("00%d", z))
+	}
+	if !isNone(units) && z >= 0 {
+		u := unitsFromSx(units)
+		texts = []string{fmt.Sprintf("%d", z), fmt.Sprintf("0%d", z), fmt.Sprintf(" %d", z), fmt.Sprintf("%d ", z), fmt.Sprintf("%d%s", z, u.base.ss),
+			fmt.Sprintf("%d %s", z, u.base.lp), unitDecompose(u, uint64(z), 0)}
+		ks := u.sortedMults()
+		for i := len(ks) - 1; i >= 0; i-- { // the largest unit that divides z: "1kB", "2m"
+			if m := ks[i]; m >= 2 && z >= m && z%m == 0 {
+				texts = append(texts, fmt.Sprintf("%d%s", z/m, u.mults[m].ss), fmt.Sprintf("%d %s", z/m, u.mults[m].lp), fmt.Sprintf(" %d%s ", z/m, u.mults[m].ss))
+				break
+			}
+		}
+	}
+	return vS(pick(r, texts))
 }
 
 func (g *c17g) typ(depth int) *sx.Node {
@@ -199,6 +242,13 @@ func (g *c17g) props(depth, n int, names []string) []propD {
 				desc = sp("Some description.")
 			}
 			p.disp = dDisp(sp(pick(r, []string{"Name", "A title", "x"})), desc, nil)
+		}
+		// a DISABLED property (half of them without a stated reason: Disabled = true, DisabledReason = nil - what a schema
+		// description with only `disabled: true` is rebuilt to): absent from every valid input; using it is a rejection that
+		// names it.  It carries no presence rule of its own.
+		if !g.frag && g.disabledPct > 0 && r.Chance(g.disabledPct) {
+			p.disabled, p.noReason = true, r.Bool()
+			continue
 		}
 		switch r.Intn(9) {
 		case 0, 1, 2:
@@ -401,8 +451,18 @@ func c17Valid(r *Rng, t *sx.Node, sc scopeCtx, depth int, key bool) *c17V {
 	case "int":
 		lo, hi := c17Range(t, -20, 60)
 		z := lo + int64(r.Intn(int(hi-lo+1)))
+		if key && !isNone(t.List[3]) && r.Chance(60) { // a whole number of some larger unit: "2kB", "1m"
+			u := unitsFromSx(t.List[3])
+			if ks := u.sortedMults(); len(ks) > 0 {
+				if w := ks[r.Intn(len(ks))] * int64(1+r.Intn(3)); w >= lo && w <= hi {
+					z = w
+				}
+			}
+		}
 		v.nat = vI("i64", z)
-		if !isNone(t.List[3]) && !key && r.Chance(50) { // seconds
+		if key {
+			v.raw = c17IntKeyRaw(r, z, t.List[3])
+		} else if !isNone(t.List[3]) && r.Chance(50) { // seconds
 			v.raw = vS(pick(r, []string{fmt.Sprintf("%d", z), fmt.Sprintf("%ds", z), fmt.Sprintf("%dm%ds", z/60, z%60), fmt.Sprintf(" %d s", z)}))
 			if z%60 == 0 && z >= 60 && r.Bool() {
 				v.raw = vS(fmt.Sprintf("%dm", z/60))
@@ -467,7 +527,11 @@ func c17Valid(r *Rng, t *sx.Node, sc scopeCtx, depth int, key bool) *c17V {
 	case "enum_int":
 		z := pick(r, t.List[1].List).List[0].Int()
 		v.nat = vI("i64", z)
-		v.raw = c17IntRaw(r, z, key)
+		if key {
+			v.raw = c17IntKeyRaw(r, z, t.List[2])
+		} else {
+			v.raw = c17IntRaw(r, z, key)
+		}
 	case "enum_str":
 		s := pick(r, t.List[2].List).List[0].Str
 		v.raw, v.nat = vS(s), vS(s)
@@ -503,7 +567,7 @@ func c17Valid(r *Rng, t *sx.Node, sc scopeCtx, depth int, key bool) *c17V {
 		seen := map[string]bool{}
 		for tries := 0; int64(len(v.keys)) < n && tries < 60; tries++ {
 			k := c17Valid(r, t.List[1], sc, 0, true)
-			id := c17KeyText(k.raw)
+			id := c17KeyText(k.nat) // by the VALUE of the key: "01" and 1 are the same key after conversion
 			if seen[id] {
 				continue
 			}
@@ -633,6 +697,9 @@ func c17Presence(r *Rng, props []*sx.Node, depth int) []bool {
 				set[rules[i].name] = true
 				// at the depth limit, optional recursive references are left out
 				if depth <= 0 && !rules[i].required && props[i].List[1].List[1].Head() == "ref" {
+					ok = false
+				}
+				if c17PropDisabled(props[i]) { // a valid input does not use a disabled property
 					ok = false
 				}
 			}
@@ -944,6 +1011,7 @@ func c17LeafFaults(r *Rng, v *c17V, key bool) (out []c17fault) {
 		both("wrong_type", sx.L(sx.A("p"), sx.L(sx.A("ptr"), sx.A("i64")), vI("i64", 5)), vU("u64", 1<<63))
 	case "bool":
 		add("wrong_type", "u", vS("maybe"))
+		add("wrong_type", "u", vS(pick(r, blankStrings)))
 		add("wrong_type", "u", vI("i64", 2))
 		add("wrong_type", "u", vF("f64", 1))
 		add("wrong_type", "v", vS("true"))
@@ -953,6 +1021,7 @@ func c17LeafFaults(r *Rng, v *c17V, key bool) (out []c17fault) {
 		}
 	case "int", "enum_int":
 		add("wrong_type", "u", vS("x!"))
+		add("wrong_type", "u", vS(pick(r, blankStrings))) // white space only: not a number, with or without units
 		add("wrong_type", "v", vS("12"))
 		add("wrong_type", "v", vB(true))
 		if !key {
@@ -979,6 +1048,7 @@ func c17LeafFaults(r *Rng, v *c17V, key bool) (out []c17fault) {
 		}
 	case "float":
 		add("wrong_type", "u", vS("x!"))
+		add("wrong_type", "u", vS(pick(r, blankStrings)))
 		add("wrong_type", "u", vSl(tAnySlice))
 		add("wrong_type", "v", vS("1.5"))
 		add("wrong_type", "v", vB(true))
@@ -1031,9 +1101,12 @@ func c17LeafFaults(r *Rng, v *c17V, key bool) (out []c17fault) {
 // underOneOf: a one-of lies on the way; its Validate first runs the member's data-mode compatibility check,
 // which reads values with Unserialize's conventions (a non-map for a one-property object is the shorthand for
 // that property, any map kind is an object), so those two corruptions are not "wrong type" there.
+//
+// A path segment that differs between the raw form (Unserialize) and the native form (Validate / Serialize) - a map
+// key written "1kB" that is 1024 after conversion - is carried as "raw\x00native"; emit resolves it by the fault's mode.
 func c17Faults(r *Rng, v *c17V, path []string, underOneOf bool, out *[]c17fault) {
 	emit := func(f c17fault, pos string, p []string) {
-		f.pos, f.path = pos, p
+		f.pos, f.path = pos, c17PathFor(p, f.mode)
 		*out = append(*out, f)
 	}
 	cont := func(kind, mode string, repl *sx.Node, pos string) {
@@ -1071,7 +1144,7 @@ func c17Faults(r *Rng, v *c17V, path []string, underOneOf bool, out *[]c17fault)
 				txt := c17KeyText(f.repl)
 				clash := false
 				for j := range v.keys {
-					if j != i && c17KeyText(v.keys[j].raw) == txt {
+					if j != i && (c17KeyText(v.keys[j].raw) == txt || c17KeyText(v.keys[j].nat) == txt) {
 						clash = true
 					}
 				}
@@ -1079,7 +1152,13 @@ func c17Faults(r *Rng, v *c17V, path []string, underOneOf bool, out *[]c17fault)
 					emit(f, "key", seg(path, "{"+txt+"}"))
 				}
 			}
-			c17Faults(r, v.vals[i], seg(path, "["+c17KeyText(v.keys[i].raw)+"]"), underOneOf, out)
+			// the segment names the key AS WRITTEN in the value at hand: the raw text for Unserialize ("1kB", "01"), the
+			// converted key for Validate / Serialize of the native form (1024, 1)
+			ks := "[" + c17KeyText(v.keys[i].raw) + "]"
+			if kn := "[" + c17KeyText(v.keys[i].nat) + "]"; kn != ks {
+				ks = ks + "\x00" + kn
+			}
+			c17Faults(r, v.vals[i], seg(path, ks), underOneOf, out)
 		}
 		for _, w := range []*sx.Node{vS("x!"), vSl(tAnySlice), vNil()} {
 			cont("wrong_type", "u", w, "map")
@@ -1096,11 +1175,11 @@ func c17Faults(r *Rng, v *c17V, path []string, underOneOf bool, out *[]c17fault)
 			extra := &c17V{}
 			seen := map[string]bool{}
 			for _, k := range v.keys {
-				seen[c17KeyText(k.raw)] = true
+				seen[c17KeyText(k.nat)] = true
 			}
 			for tries := 0; len(v.keys)+len(extra.keys) < want && tries < 80; tries++ {
 				k := c17Valid(r, v.t.List[1], v.sc, 0, true)
-				if id := c17KeyText(k.raw); !seen[id] {
+				if id := c17KeyText(k.nat); !seen[id] {
 					seen[id] = true
 					extra.keys = append(extra.keys, k)
 				}
@@ -1139,8 +1218,27 @@ func c17Faults(r *Rng, v *c17V, path []string, underOneOf bool, out *[]c17fault)
 		for _, nm := range v.names {
 			set[nm] = true
 		}
+		// a disabled property that is used: Unserialize rejects it at that property, whatever its value (Validate and
+		// Serialize of the native form do not look at the flag)
+		for _, p := range props {
+			name := p.List[0].Str
+			pt := p.List[1].List[1]
+			if !c17PropDisabled(p) || set[name] || pt.Head() == "ref" {
+				continue
+			}
+			av := c17Valid(r, pt, v.sc, 1, false)
+			if av == nil {
+				continue
+			}
+			set[name] = true
+			broken, _ := c17Violated(rules, set)
+			set[name] = false
+			if len(broken) == 0 { // otherwise valid: no presence rule of a sibling is disturbed by the extra property
+				emit(c17fault{node: v, kind: "disabled", mode: "u", resize: -1, addName: name, addVal: av}, "rule", seg(path, name))
+			}
+		}
 		for i, ru := range rules {
-			if ru.name == v.discField {
+			if ru.name == v.discField || c17PropDisabled(props[i]) {
 				continue
 			}
 			f := c17fault{node: v, resize: -1}
@@ -1184,6 +1282,22 @@ func c17Faults(r *Rng, v *c17V, path []string, underOneOf bool, out *[]c17fault)
 			emit(f, "leaf", path)
 		}
 	}
+}
+
+// c17PathFor: the path as it reads in the value handed to the operation (mode "u": the raw form, otherwise the native form).
+func c17PathFor(p []string, mode string) []string {
+	out := make([]string, len(p))
+	for i, s := range p {
+		if j := strings.IndexByte(s, 0); j >= 0 {
+			if mode == "u" {
+				s = s[:j]
+			} else {
+				s = s[j+1:]
+			}
+		}
+		out[i] = s
+	}
+	return out
 }
 
 func pathSx(kind, pos string, p []string) *sx.Node {
@@ -1319,14 +1433,69 @@ func init() {
 				n, maxFaults = 1200, 120
 			}
 			for i := 0; i < n; i++ {
-				g := &c17g{r: r, dispPct: 35}
+				g := &c17g{r: r, dispPct: 35, disabledPct: 12}
 				depth := 1 + r.Intn(3)
 				if c := c17Case(r, g, depth, maxFaults); c != nil {
 					emit(c)
 				}
 			}
 		},
-		Run: runSchemaCase, // payload positions 1..3 are ENV SCHEMA (ops ...) as in the schema family
+		Run: runC17Twice(2, 3), // payload positions 1..3 are ENV SCHEMA (ops ...) as in the schema family
+	}
+}
+
+// ---------------------------------------------------------------------------------------
+// runner: every operation of a case is evaluated TWICE on the same schema instance, in the same process - the whole
+// list, then the whole list again, so that between the two evaluations of a call lie all the other calls (and
+// rejections) of the case.  The error of a call must not depend on what was rejected before (an error value that is
+// shared between calls and extended in place accumulates path segments).  Where the two evaluations agree the
+// observation is the ordinary one; where an error is involved and they differ it is (again FIRST SECOND), which no
+// prediction of the model equals and which the direct check reports with both paths.
+// ---------------------------------------------------------------------------------------
+
+func c17RunOps(s schema.Type, ops []*sx.Node) []*sx.Node {
+	var res []*sx.Node
+	for _, op := range ops {
+		v := valFromSx(op.List[1])
+		switch op.Head() {
+		case "u":
+			o, _, _ := obsUnser(s, v)
+			res = append(res, o)
+		case "v":
+			res = append(res, obsValidate(s, v))
+		case "s":
+			o, _, _ := obsSerialize(s, v)
+			res = append(res, o)
+		default:
+			res = append(res, sx.L(sx.A("bad"), sx.S("op")))
+		}
+	}
+	return res
+}
+
+func runC17Twice(schemaPos, opsPos int) func(p *sx.Node) *sx.Node {
+	return func(p *sx.Node) *sx.Node {
+		var s schema.Type
+		built := outcomeSx(func() (*sx.Node, error) {
+			s = buildWithEnv(p.List[1], p.List[schemaPos])
+			return unit(), nil
+		})
+		if s == nil {
+			return sx.L(sx.A("build-failed"), built)
+		}
+		ops := p.List[opsPos].List[1:]
+		first := c17RunOps(s, ops)
+		second := c17RunOps(s, ops)
+		res := sx.L(sx.A("r"))
+		for i := range first {
+			a, b := first[i], second[i]
+			if (a.Head() == "err" || b.Head() == "err") && a.String() != b.String() {
+				res.Append(sx.L(sx.A("again"), a, b))
+			} else {
+				res.Append(a)
+			}
+		}
+		return res
 	}
 }
 
